@@ -95,7 +95,7 @@ def run(ctx):
         if crc not in ids:
             continue
         m = model.get(cid)
-        if not isinstance(m, tuple) or m[1] == "illtyped":
+        if not isinstance(m, tuple) or m[1] in ("illtyped", "foreign"):
             continue
         evals += 1
         ic = T.norm_class(impl)
